@@ -1,6 +1,27 @@
 """Table of checks: how each property's harness is built and run. Read by check.py and gen_manifest.py."""
 
 CHECKS = {
+    "C03": dict(
+        pkg="c03",
+        level="exploration",
+        technique="property-based testing (rapid) + exhaustive enumeration of small channel tables against a table-intersect-allow-list reference model, observed at recording targets",
+        rule=("case = (server kind tcp/http with 1-3 websocket paths/udp/stdio/(thorough) dns, channel table of 1-4 names from a "
+              "confusable set {a,A,ab,a/b,b,ba,echo,Echo,echo2,''}, per-endpoint allow-list (empty, subset, or naming an unknown "
+              "channel), 2-6 requested names incl. case variants/prefixes/extensions/unknown/'ls'). One banner-echo target per "
+              "channel. Oracle: name in table-intersect-allow-list of the endpoint used => banner of exactly that target, echo "
+              "works, its accept counter +1, all others unchanged; otherwise => refusal (EOF before any payload) and no accept "
+              "on any target; a start-up error is accepted only for an invalid allow-list. non-trivial = a request for a "
+              "configured-but-unlisted name or a name confusable with a configured one; the socket-kind sub-space of tables "
+              "with 1 (quick) / 1-2 (thorough) names is enumerated completely"),
+        assumptions=["channel names are unique within a table (documented)", "names containing a newline are not generated (cannot be a multistream token)"],
+        quick=dict(run=".", checks=120, timeout=900),
+        thorough=dict(run=".", checks=600, timeout=3000, shards=8),
+        design_ref="DESIGN.md 2/C03",
+        level_text=("Generated configurations and requests on real pairs compared with a reference model of exposure; small socket-server "
+                    "tables are enumerated exhaustively. A green run means every request was routed to exactly its target or refused "
+                    "without any outbound connection, as the model says."),
+        level_note="Trusts the banner/accept counters of harness targets; sampling beyond the enumerated sub-space.",
+    ),
     "C08": dict(
         pkg="c08",
         level="exploration",
